@@ -130,11 +130,18 @@ impl PidFileLocking {
             create_dir_all(dir)?;
         }
 
-        let mut fs = File::create(&self.0)?;
+        // Write the PID to a temporary file first and move it into place. Other processes must
+        // never see the lock file without its owner's PID: they take a lock file they cannot
+        // parse for a stale one and remove it.
+        let tmp_path = self
+            .0
+            .with_extension(format!("tmp-{}", std::process::id()));
+        let mut fs = File::create(&tmp_path)?;
         fs.write_all(std::process::id().to_string().as_bytes())?;
         fs.sync_all()?;
         fs.flush()?;
-        Ok(())
+        drop(fs);
+        std::fs::rename(&tmp_path, &self.0)
     }
 
     /// Cleans up all stale lock files in the .lsp-locks directory
